@@ -51,18 +51,44 @@ def machine_out(m, order):
                 links_typed=all(isinstance(l, Links) for _, _, l in m.dead_links))
 
 
+def structs_for(layout):
+    """The packaged sark.struct with the `sv` / `vcpu` fields moved as the layout says (what a user passes as
+    MachineController(structs=...) for a machine running another build of the system software)."""
+    import pkg_resources
+    from rig.machine_control import struct_file
+    st = struct_file.read_struct_file(pkg_resources.resource_string("rig", "boot/sark.struct"))
+    sv, vc = st[b"sv"], st[b"vcpu"]
+    sv.base = layout["sv_base"]
+    for name, off in layout["sv"].items():
+        if name.encode() in sv:
+            sv[name.encode()] = sv[name.encode()]._replace(offset=off)
+    vc.size = layout["vcpu_size"]
+    for name, off in layout["vcpu"].items():
+        vc[name.encode()] = vc[name.encode()]._replace(offset=off)
+    return st
+
+
 def run_case(c):
-    """One machine state probed by a fresh controller -- or, for a history, ONE controller probing the successive
-    states of a machine (the simulator's state is replaced between the probes, as a reboot would)."""
+    """One machine state probed by a fresh controller -- or a history: the successive states are probed by ONE
+    controller (the simulator's state is replaced between the probes, as a reboot would), or, when the case names
+    several controllers (`ctrl` = the controller probing each state, `ctrl_layouts` = the struct layout each was
+    created with), by several controllers living in this interpreter at the same time, each with its own machine."""
     stages = c["stages"] if "stages" in c else [c]
     net = sim.Net(sim.SimMachine(stages[0]))
     net.install(scp_connection)
-    mc = MachineController("simulated-machine")
+    ctrl = c.get("ctrl", [0] * len(stages))
+    layouts = c.get("ctrl_layouts", [None])
+    mcs = {}
     outs = []
-    for st in stages:
+    for k, st in zip(ctrl, stages):
+        if k not in mcs:
+            with warnings.catch_warnings():
+                warnings.simplefilter("ignore")
+                mcs[k] = (MachineController("simulated-machine-%d" % k) if layouts[k] is None else
+                          MachineController("simulated-machine-%d" % k, structs=structs_for(layouts[k])))
         net.machine = sim.SimMachine(st)
         net.queue = []
-        outs.append(probe(mc, net, st))
+        outs.append(probe(mcs[k], net, st))
     return {"stages": outs} if "stages" in c else outs[0]
 
 
